@@ -53,7 +53,7 @@ def run(check, tier):
     check.add_functions("AutoSerialize.save", "serialize.load", "_recursive_save", "_serialize_value",
                         "_serialize_container", "_write_ndarray", "_write_bytes", "_recursive_load",
                         "_deserialize_container", "_array_to_np", "_convert_string_to_path_if_needed")
-    check.bounds.update(depth="<= 3 container levels, width 2 per container, <= 3 attributes",
+    check.bounds.update(depth="<= 3 container levels, width 2 per container (sequences of strings: every length 0..23), <= 3 attributes",
                         symbolic="kind selectors, int (|i| < 2^62; int64 range in numeric sequences), float (real-valued), "
                                  "str (len <= 2, no '/'), bool",
                         leaves="37 concrete leaf kinds x 7 nesting positions (arrays incl. 0-d/empty, NumPy scalars, "
@@ -65,7 +65,7 @@ def run(check, tier):
         "store kind / compression level / path type / write mode are covered by the concrete replay and validation runs only (I/O cannot be symbolic)",
         "attribute names and dict keys are 'n'/'k' + symbolic string (valid zarr node names, not reserved)",
     ]
-    check.outside += ["graphs deeper than 3 or wider than 2 per container", "non-string dict keys",
+    check.outside += ["graphs deeper than 3 or wider than 2 per container (except string sequences up to 23 members)", "non-string dict keys",
                       "dill-fallback objects other than complex/bytes/frozenset",
                       "mixed int/float numeric sequences with |int| > 2^53 when realised values do not hit them"]
     quick = tier == "quick"
@@ -80,6 +80,10 @@ def run(check, tier):
         jobs.append(dict(fn="rt_scalars", fixed=dict(k0=k0), timeout=t, key="scalars"))
     for depth in (1, 2, 3):
         jobs.append(dict(fn="rt_nested_objects", fixed=dict(depth=depth), timeout=t, key="nested_objects"))
+    # member-by-member sequences of every length (member keys with one and with two digits), both stores
+    for n in ((0, 1, 10, 11, 12, 21) if quick else range(24)):
+        for store in (0, 1):
+            jobs.append(dict(fn="rt_long_seq", fixed=dict(n=n, store=store), timeout=t, key="sequence_order"))
     import c01_roundtrip as h
     rnd = random.Random(seed())
     for a in (h.QUICK_NUM_IDX if quick else h.NUM_IDX):
